@@ -112,8 +112,11 @@ Definition get_committed (o : obj) (k : N) : N :=
 Definition get_state (o : obj) (k : N) : N :=
   match find (o_dirty o) k with Some v => v | None => get_committed o k end.
 
+(* copy every entry of a Go map into another one (a Go map has one entry per
+   key; with fold_right the first entry of a key in the list is the one that
+   stays, as for [find]) *)
 Definition merge (base upd : list (N * N)) : list (N * N) :=
-  fold_left (fun m kv => set m (fst kv) (snd kv)) upd base.
+  fold_right (fun kv m => set m (fst kv) (snd kv)) base upd.
 (* stateObject.finalise *)
 Definition obj_finalise (o : obj) : obj :=
   set_o_dirty [] (set_o_pending (merge (o_pending o) (o_dirty o)) o).
@@ -760,42 +763,46 @@ Definition obs_revs (l : list (N * nat)) : list Z :=
 Definition obs_full (s : state) : list Z :=
   obs_aside (sa s) ++ obs_vside (sv s) ++ obs_revs (revs s) ++ obs_revs (vrevs s) ++ [zn (next_rev s)].
 
-Definition is_control (o : op) : bool :=
-  match o with OSnapshot | ORevert _ | OFinalise _ | OIntermediateRoot _ | OReopen _ => true | _ => false end.
-Definition op_addr (o : op) : option N :=
-  match o with
-  | OAddBalance a _ | OSubBalance a _ | OSetBalance a _ | OSetNonce a _ | OSetCode a _ | OSetState a _ _
-  | OSuicide a | OCreateAccount a | OUpdateDelegator a _ _ _ => Some a
-  | _ => None
-  end.
-Definition is_val_op (o : op) : bool :=
-  match o with
-  | OCreateValidator _ _ _ _ _ | OUpdateVal _ _ _ _ _ _ | ORemoveValidator _ | OGetValidator _
-  | OAddWithdraw _ | ORemoveWithdraws _ => true
-  | _ => false
-  end.
-(* what is recorded after one call *)
-Definition obs_after (o : op) (s : state) : list Z :=
-  if is_control o then obs_full s
-  else if is_val_op o then obs_vside (sv s)
-  else match op_addr o with
-       | Some a => obs_acct (sa s) a ++ obs_acct_int (sa s) a ++ obs_amisc (sa s)
-       | None => obs_amisc (sa s)
-       end.
+(* The harness records a checksum of the full observation after every call
+   (the Coq parser is too slow for the raw vectors; [trace_full] gives them). *)
+Definition CK_M : Z := 2305843009213693951%Z.    (* 2^61 - 1, used as a bit mask *)
+(* folds an integer of up to 305 bits and its sign into 61 bits *)
+Definition ck_mix (x : Z) : Z :=
+  if Z.leb 0 x && Z.ltb x CK_M then x else
+  let a0 := Z.abs x in
+  let a1 := Z.shiftr a0 61 in
+  let a2 := Z.shiftr a1 61 in
+  let a3 := Z.shiftr a2 61 in
+  let a4 := Z.shiftr a3 61 in
+  Z.land a0 CK_M + 3 * Z.land a1 CK_M + 5 * Z.land a2 CK_M + 7 * Z.land a3 CK_M + 11 * Z.land a4 CK_M
+  + (if Z.ltb x 0 then 13 else 0).
+(* h := (33 h + mix x) mod 2^61 *)
+Definition cks (l : list Z) : Z :=
+  fold_left (fun h x => Z.land (Z.shiftl h 5 + h + ck_mix x) CK_M) l (Z.of_nat (length l)).
 
-(* the trace of a history: per call, return value :: observation; [-1] and stop on a panic *)
-Fixpoint trace (ops : list op) (s : state) : list (list Z) :=
+(* the trace of a history: per call, the checksum of (return value :: state read
+   back); -1 and stop on a panic *)
+Fixpoint trace (ops : list op) (s : state) : list Z :=
+  match ops with
+  | [] => []
+  | o :: r =>
+    match step o s with
+    | None => [(-1)%Z]
+    | Some (s1, ret) => cks (ret :: obs_full s1) :: trace r s1
+    end
+  end.
+Fixpoint trace_full (ops : list op) (s : state) : list (list Z) :=
   match ops with
   | [] => []
   | o :: r =>
     match step o s with
     | None => [[(-1)%Z]]
-    | Some (s1, ret) => (ret :: obs_after o s1) :: trace r s1
+    | Some (s1, ret) => (ret :: obs_full s1) :: trace_full r s1
     end
   end.
 
 (* ---- correspondence runner ---------------------------------------------- *)
-Record case := mkCase { c_ops : list op; c_obs : list (list Z) }.
+Record case := mkCase { c_ops : list op; c_obs : list Z }.
 
 Fixpoint zl_eqb (a b : list Z) : bool :=
   match a, b with
@@ -803,13 +810,7 @@ Fixpoint zl_eqb (a b : list Z) : bool :=
   | x :: a', y :: b' => Z.eqb x y && zl_eqb a' b'
   | _, _ => false
   end.
-Fixpoint zll_eqb (a b : list (list Z)) : bool :=
-  match a, b with
-  | [], [] => true
-  | x :: a', y :: b' => zl_eqb x y && zll_eqb a' b'
-  | _, _ => false
-  end.
-Definition case_ok (c : case) : bool := zll_eqb (trace (c_ops c) init) (c_obs c).
+Definition case_ok (c : case) : bool := zl_eqb (trace (c_ops c) init) (c_obs c).
 
 Fixpoint mismatches_from (i : N) (l : list case) : list N :=
   match l with
@@ -819,10 +820,10 @@ Fixpoint mismatches_from (i : N) (l : list case) : list N :=
 Definition mismatches := mismatches_from 0.
 
 (* debugging aid: index of the first call whose record differs *)
-Fixpoint first_diff (a b : list (list Z)) (i : N) : option N :=
+Fixpoint first_diff (a b : list Z) (i : N) : option N :=
   match a, b with
   | [], [] => None
-  | x :: a', y :: b' => if zl_eqb x y then first_diff a' b' (i + 1) else Some i
+  | x :: a', y :: b' => if Z.eqb x y then first_diff a' b' (i + 1) else Some i
   | _, _ => Some i
   end.
 Definition case_diff (c : case) : option N := first_diff (trace (c_ops c) init) (c_obs c) 0.
